@@ -76,3 +76,16 @@ func tokenOf(k any) (string, bool) {
 	}
 	return "", false
 }
+
+// privVal is a value type that is NEVER registered with the store: a session holding one cannot
+// be encoded, so its Save fails. badVal is its token in scripts and in the specification.
+type privVal struct{ N int }
+
+const badVal = "!unregistered"
+
+func valOf(token string) any {
+	if token == badVal {
+		return privVal{N: 1}
+	}
+	return token
+}
